@@ -272,6 +272,16 @@ def r_lock_flag(ctx: Ctx, rule: str):
             rep.ob(rule, "lock() stores only True", isinstance(val, ast.Constant) and val.value is True, node=e.node)
         if hosts <= {"unlock"}:
             rep.ob(rule, "unlock() stores only False", isinstance(val, ast.Constant) and val.value is False, node=e.node)
+    # the lock belongs to the user: the pool itself never unlocks, and locks only when it is asked to close
+    callers = [n for fn in ctx.pool_functions() for n in ctx.distinct_sites(ctx.nodes(fn, lambda n: n.op == "call" and n.inlined is None and ctx.is_call_to(n, "lock", "unlock")))]
+    for n in callers:
+        nm = n.callee.targets[0].name
+        hosts = ctx.hosts_of(n)
+        if nm == "unlock":
+            rep.ob(rule, "no method of the pool unlocks it (a lock() the user issued stays in force until the user calls unlock())", False, node=n,
+                   detail=f"{sorted(hosts)} calls unlock(): a lock set by the user meanwhile is dropped and requests are accepted again")
+        else:
+            rep.ob(rule, "the pool locks itself only in gather_and_close", hosts <= {"gather_and_close"}, node=n, detail=f"called on behalf of {sorted(hosts)}")
     for name, const in (("lock", True), ("unlock", False)):
         for f in ctx.pool_funcs(name):
             # on every path to the normal exit the flag ends with the constant: either stored, or the guard showed it already had it
